@@ -752,7 +752,15 @@ func init() {
 			fn := c.MustFn("(*PostingsIterator).nextDocNumAtOrAfterClean")
 			key := fnName(fn) + "/reset-compares-postings"
 			n := 0
-			for _, h := range fn.Blocks {
+			// (the skip loop may have been extracted into a helper method of the iterator)
+			var loopBlocks []*ssa.BasicBlock
+			loopBlocks = append(loopBlocks, fn.Blocks...)
+			for _, h := range staticCallees(fn) {
+				if c.inRoot(h) && h.Blocks != nil && h.Signature.Recv() != nil && types.Identical(h.Signature.Recv().Type(), fn.Signature.Recv().Type()) {
+					loopBlocks = append(loopBlocks, h.Blocks...)
+				}
+			}
+			for _, h := range loopBlocks {
 				if !isLoopHeader(h) {
 					continue
 				}
